@@ -4,8 +4,8 @@
 // mutants that the strict classifier of internal/wire puts into at least one of the classes of the
 // statement (length-sum, nlri-tiling, attr-length, prefix-len, missing-mandatory). Each mutant is a
 // case for a child process: bio-rd's own packet.Decode pre-screens it under the session's options;
-// every mutant Decode accepts (and a 2 % sample of those it rejects) is sent over a fresh
-// Established session that already holds a few valid routes. After the synchronisation point the
+// the mutants Decode accepts (up to a quota per mutation signature) and a 2 % sample of those it rejects
+// are sent over a fresh Established session that already holds a few valid routes. After the synchronisation point the
 // Adj-RIB-In of both families and the Loc-RIB are compared with their content before the message:
 //
 //	installed   a (prefix, path id, attributes) entry exists that was not there before
@@ -21,8 +21,11 @@ import (
 	"encoding/json"
 	"fmt"
 	"math/rand/v2"
+	"os"
 	"sort"
+	"strconv"
 	"strings"
+	"sync"
 
 	"github.com/bio-routing/bio-rd/protocols/bgp/packet"
 
@@ -41,6 +44,7 @@ type ccase struct {
 	Muts     []string        `json:"mutations"`
 	Classes  []string        `json:"classes"`
 	Msg      string          `json:"msg"` // hex of the whole mutant message
+	Accepted bool            `json:"accepted_by_decode"`
 }
 
 func cfgOpts(c sessgen.Cfg) wire.Options {
@@ -327,9 +331,22 @@ func (w *work) build() []byte {
 	return b
 }
 
-// coarse name of a mutation for violation features: the part before the size suffix
-func coarse(name string) string {
-	name = strings.TrimRight(name, "+-0123456789")
+// group maps a mutation to the part of the decoder it probes; violations are labelled with it.
+func group(name string) string {
+	switch {
+	case strings.HasPrefix(name, "withdrawn-length"), strings.HasPrefix(name, "attribute-length"), name == "truncate", name == "last-attribute-overruns":
+		return "length-fields"
+	case name == "append-bytes", name == "nlri-short", name == "mp-reach-nlri-short":
+		return "nlri-region"
+	case strings.HasPrefix(name, "prefix-length:"):
+		return "prefix-length"
+	case strings.HasPrefix(name, "fixed-size:"):
+		return "fixed-size-attribute"
+	case strings.HasPrefix(name, "as-path-"), strings.HasSuffix(name, "-odd-bytes"):
+		return "attribute-content"
+	case strings.HasPrefix(name, "drop:"), name == "mp-next-hop-empty":
+		return "mandatory-attributes"
+	}
 	return name
 }
 
@@ -527,32 +544,29 @@ func runCase(idx int, raw json.RawMessage) (res batch.Result) {
 		res.Inconcl = "bad hex"
 		return
 	}
-	res.Count("mutants", 1)
-	for _, cl := range c.Classes {
-		res.Count("class_"+cl, 1)
-	}
 	accepted, panicked := preScreen(msg, c.Cfg)
 	if panicked != "" {
-		res.Count("decode_panics", 1)
-	}
-	viaSession := accepted || panicked != "" || idx%50 == 0
-	if accepted {
-		res.Count("decode_accepted", 1)
-		res.Nontrivial = append(res.Nontrivial, fmt.Sprintf("%s|%s|%s", strings.Join(c.Muts, "+"), strings.Join(c.Classes, "+"), c.Cfg.Kind()))
-		res.Seen("mutations_accepted_by_decode", strings.Join(c.Muts, "+"))
-	} else {
-		res.Count("decode_rejected", 1)
-	}
-	if !viaSession {
+		// Decode panics: the FSM goroutine (no recover there) would kill the process — C21's business
+		res.Count("decode_panics_not_sent", 1)
 		return
+	}
+	if accepted {
+		res.Nontrivial = append(res.Nontrivial, fmt.Sprintf("%s|%s|%s", strings.Join(c.Muts, "+"), strings.Join(c.Classes, "+"), c.Cfg.Kind()))
+		res.Seen("mutations_sent_through_sessions", strings.Join(c.Muts, "+"))
+		for _, cl := range c.Classes {
+			res.Count("session_class_"+cl, 1)
+		}
 	}
 	srv, _, s, err := sessgen.NewSession(c.Cfg)
 	if err != nil {
 		res.Inconcl = "cannot establish: " + err.Error()
 		return
 	}
+	// The session is torn down at the end unless the mutant installed something: with a damaged route in the
+	// tables the teardown itself can kill the process (C21's business) and the verdict of this case would be lost.
+	teardown := true
 	defer func() {
-		if s.Established() {
+		if teardown && s.Established() {
 			s.SendNotification(6, 0)
 			s.Sync()
 		}
@@ -594,6 +608,7 @@ func runCase(idx int, raw json.RawMessage) (res batch.Result) {
 	if len(fresh) == 0 {
 		return
 	}
+	teardown = false
 	sort.Slice(fresh, func(i, j int) bool { return fresh[i].String() < fresh[j].String() })
 	table := "loc-rib"
 	var list []string
@@ -605,14 +620,35 @@ func runCase(idx int, raw json.RawMessage) (res batch.Result) {
 			list = append(list, e.String())
 		}
 	}
-	var cm []string
+	// the finding is labelled with the mutation group(s) of the mutant (a pair: both, sorted)
+	gs := map[string]bool{}
 	for _, m := range c.Muts {
-		cm = append(cm, coarse(m))
+		gs[group(m)] = true
 	}
-	res.Add("installed", vf.F("class", strings.Join(c.Classes, "+"), "mutation", strings.Join(cm, "+"), "table", table),
-		"session{%s as4=%v ap4=%v ap6=%v}: valid %s mutated by %v is malformed (%s) but %d new entries exist after it was processed (session established afterwards: %v, bio-rd wrote %v): %s; message %s",
-		c.Cfg.Kind(), c.Cfg.PeerAS4 || c.Cfg.BigPeer, c.Cfg.AddPathV4(), c.Cfg.AddPathV6(), c.Source, c.Muts, strings.Join(c.Classes, "+"), len(fresh), s.Established(), s.Notifications(), strings.Join(list, "; "), c.Msg)
+	var gl []string
+	for g := range gs {
+		gl = append(gl, g)
+	}
+	sort.Strings(gl)
+	label := strings.Join(gl, "+")
+	if len(c.Muts) > 1 {
+		label = "two-mutations" // the groups are in the detail; every pair rides on an open single-mutation group
+	}
+	res.Add("installed", vf.F("group", label, "single", len(c.Muts) == 1),
+		"groups %v, session{%s as4=%v ap4=%v ap6=%v}: valid %s mutated by %v is malformed (%s) but %d new entries (first in %s) exist after it was processed (session established afterwards: %v, bio-rd wrote %v): %s; message %s",
+		gl, c.Cfg.Kind(), c.Cfg.PeerAS4 || c.Cfg.BigPeer, c.Cfg.AddPathV4(), c.Cfg.AddPathV6(), c.Source, c.Muts, strings.Join(c.Classes, "+"), len(fresh), table, s.Established(), s.Notifications(), strings.Join(list, "; "), c.Msg)
+	res.Count("sessions_with_installed_routes", 1)
 	return
+}
+
+func singles(m map[string]int) map[string]int {
+	out := map[string]int{}
+	for k, v := range m {
+		if !strings.Contains(k, "+") || strings.HasSuffix(k, "+") && strings.Count(k, "+") == 1 {
+			out[k] = v
+		}
+	}
+	return out
 }
 
 func main() {
@@ -630,24 +666,87 @@ func main() {
 		} else {
 			muts := mutations()
 			n := r.N(40000, 1500000)
-			discarded := 0
-			for i := 0; len(cases) < n; i++ {
-				c, ok := genCase(r.RandN("c19", i), muts)
-				if !ok {
-					discarded++
-					continue
-				}
-				cases = append(cases, c)
+			if v, err := strconv.Atoi(os.Getenv("VERIF_C19_N")); err == nil && v > 0 {
+				n = v // development aid
 			}
+			quotaSingle, quotaPair := r.N(20, 600), r.N(1, 40)
+			// generation, classification and the Decode pre-screen are pure functions: done here, in parallel
+			type slot struct {
+				c  ccase
+				ok bool
+			}
+			var mu sync.Mutex
+			perSig := map[string]int{}
+			accBySig := map[string]int{}
+			total, discarded, accepted, rejected, panics := 0, 0, 0, 0, 0
+			classCount := map[string]int{}
+			for base := 0; total < n; base += 4096 {
+				slots := make([]slot, 4096)
+				vf.Parallel(len(slots), 8, func(k int) {
+					c, ok := genCase(r.RandN("c19", base+k), muts)
+					if ok {
+						msg, _ := hex.DecodeString(c.Msg)
+						acc, pan := preScreen(msg, c.Cfg)
+						c.Accepted = acc
+						if pan != "" {
+							mu.Lock()
+							panics++
+							mu.Unlock()
+						}
+					}
+					slots[k] = slot{c, ok}
+				})
+				for k, sl := range slots {
+					if total >= n {
+						break
+					}
+					if !sl.ok {
+						discarded++
+						continue
+					}
+					total++
+					c := sl.c
+					for _, cl := range c.Classes {
+						classCount[cl]++
+					}
+					sig := strings.Join(c.Muts, "+")
+					if !c.Accepted {
+						rejected++
+						if (base+k)%50 == 0 {
+							cases = append(cases, c)
+						}
+						continue
+					}
+					accepted++
+					accBySig[sig]++
+					q := quotaSingle
+					if len(c.Muts) > 1 {
+						q = quotaPair
+					}
+					if perSig[sig] < q {
+						perSig[sig]++
+						cases = append(cases, c)
+					}
+				}
+			}
+			r.Eval(total)
+			r.Count("mutants", total)
 			r.Count("mutants_not_malformed_discarded", discarded)
+			r.Count("decode_accepted", accepted)
+			r.Count("decode_rejected", rejected)
+			r.Count("decode_panics", panics)
+			for cl, v := range classCount {
+				r.Count("class_"+cl, v)
+			}
+			r.Set("decode_accepted_by_single_mutation", singles(accBySig))
+			r.Set("session_quota_per_mutation_signature", map[string]int{"single": quotaSingle, "pair": quotaPair})
 		}
-		r.Eval(len(cases))
-		batch.Drive(r, batch.Config{Name: "c19", PerChild: 5000, Workers: 8, FatalNotViolation: true}, cases, nil)
+		batch.Drive(r, batch.Config{Name: "c19", PerChild: 120, Workers: 1, Lanes: 8, FatalNotViolation: true}, cases, nil)
 		if _, ok := r.Replaying(); !ok {
-			r.Require("mutants", int64(len(cases)*9/10))
 			r.Require("sessions", 500)
 			for _, cl := range []string{"length-sum", "nlri-tiling", "attr-length", "prefix-len", "missing-mandatory"} {
 				r.Require("class_"+cl, 200)
+				r.Require("session_class_"+cl, 20)
 			}
 		}
 	})
